@@ -302,6 +302,50 @@ func (e *vxC18Env) run(c vxC18Case) {
 		}
 		_ = os.Remove(marker)
 		_ = os.RemoveAll(root)
+	case 8:
+		// the file is still open for writing when the checked call tries to start it (an update in progress: the kernel
+		// answers "text file busy"); 60 ms later it changes to state A, 350 ms later the writer closes it. Whenever the
+		// script runs - at once, never, or on some retry - it must be root-controlled at that moment.
+		root := filepath.Join(e.dir, base+".d")
+		if err := os.MkdirAll(root, 0o755); err != nil {
+			panic(err)
+		}
+		probe := filepath.Join(root, "probe")
+		if err := os.WriteFile(probe, []byte("#!/bin/sh\nstat -c '%u:%g %a' \"$0\" >> "+marker+"\necho ran\n"), 0o755); err != nil {
+			panic(err)
+		}
+		_ = os.Chown(probe, 0, 0)
+		_ = os.Remove(marker)
+		writer, err := os.OpenFile(probe, os.O_WRONLY|os.O_APPEND, 0)
+		if err != nil {
+			panic(err)
+		}
+		done := make(chan struct{}, 1)
+		go func() { _, _ = SafeCmdExecution(probe, nil, 5*time.Second); done <- struct{}{} }()
+		time.Sleep(60 * time.Millisecond)
+		if err := c.A.Apply(probe); err != nil {
+			panic(err)
+		}
+		time.Sleep(290 * time.Millisecond)
+		writer.Close()
+		<-done
+		time.Sleep(50 * time.Millisecond)
+		if b, err := os.ReadFile(marker); err == nil {
+			for _, l := range strings.Split(strings.TrimSpace(string(b)), "\n") {
+				var uid, gid int
+				var mode uint32
+				if _, err := fmt.Sscanf(strings.TrimSpace(l), "%d:%d %o", &uid, &gid, &mode); err == nil && !vcmd.Allowed(uid, gid, os.FileMode(mode)) {
+					e.rep.Violate(mc.Violation{Signature: "C18 a command ran although its file was not root-controlled at that moment (file was busy when first started)",
+						Detail: fmt.Sprintf("probe was root:root 0755 and open for writing when SafeCmdExecution was called (text file busy); 60 ms later the file became %v, 350 ms later the writer closed it; when the probe ran it reported owner/mode %q", c.A, strings.TrimSpace(l)), Replay: c})
+					break
+				}
+			}
+			e.rep.Count("busy file: executed", 1)
+		} else {
+			e.rep.Count("busy file: not executed", 1)
+		}
+		_ = os.Remove(marker)
+		_ = os.RemoveAll(root)
 	case 3:
 		fa := e.script(base+"a", marker, c.A)
 		fb := e.script(base+"b", marker, c.B)
@@ -398,6 +442,14 @@ func TestVX_C18(t *testing.T) {
 		idx++
 		if mc.Mine(idx) {
 			e.run(vxC18Case{Part: 7, A: a})
+			n4++
+		}
+	}
+	// part 8: the file is busy (open for writing) at the first start attempt and changes owner/mode before it is closed
+	for _, a := range []vcmd.PermState{{Uid: 1234, Gid: 1234, Mode: 0o755}, {Uid: 0, Gid: 0, Mode: 0o757}, {Uid: 0, Gid: 1234, Mode: 0o775}} {
+		idx++
+		if mc.Mine(idx) {
+			e.run(vxC18Case{Part: 8, A: a})
 			n4++
 		}
 	}
